@@ -14,24 +14,28 @@ STATE_NON_PI_DESYNC = re.compile(r"^(S\.|A$|T\d\.cells|G$)")
 
 # property -> regex of compared components, monitors, lean module, theorems
 PROPS = {
+    # pi = components on which a model/implementation divergence is attributed to the property. For properties
+    # whose executable predicate (RdsSpec/Monitors.lean) states the whole property, the predicate evaluated on the
+    # implementation's own trace decides (pi = NONE): a divergence elsewhere is another property's business.
+    # C01/C09/C10/C11 have predicates that are conditional on a clean history, so the projection is kept there.
     "C01": dict(pi=r"^S\.(pi|pty|tp|ta|ms)$", title="basic tuning fields"),
-    "C02": dict(pi=r"^T\d\.cells$", title="characters land in the addressed cells"),
+    "C02": dict(pi=NONE, title="characters land in the addressed cells"),
     "C03": dict(pi=NONE, title="blocks above the accepted error level are irrelevant"),
-    "C04": dict(pi=r"^(E\d+|S\..*|A|T\d\.cells)$", title="callbacks fire exactly on change"),
+    "C04": dict(pi=NONE, title="callbacks fire exactly on change"),
     "C05": dict(pi=r"^X$", title="memory safety / no UB"),
-    "C06": dict(pi=r"^T\d\.cells$", title="thresholds and weighted level"),
-    "C07": dict(pi=r"^T\d\.cells$", title="progressive correction only improves"),
-    "C08": dict(pi=r"^(T1\.cells|T2\.cells|E9)$", title="RadioText A/B protocol"),
+    "C06": dict(pi=NONE, title="thresholds and weighted level"),
+    "C07": dict(pi=NONE, title="progressive correction only improves"),
+    "C08": dict(pi=NONE, title="RadioText A/B protocol"),
     "C09": dict(pi=r"^(S\..*|A|E[0-7])$", title="extended check"),
     "C10": dict(pi=r"^(A|E7)$", title="AF list"),
-    "C11": dict(pi=r"^(S\.ecc|S\.country|S\.pi|E5|E6)$", title="ECC and country"),
-    "C12": dict(pi=r"^E11$", title="clock time"),
+    "C11": dict(pi=r"^(S\.ecc|S\.country|E5|E6)$", title="ECC and country"),
+    "C12": dict(pi=NONE, title="clock time"),
     "C13": dict(pi=NONE, title="reset forgets history, keeps settings"),
-    "C14": dict(pi=r"^ret$", title="hex-string input"),
+    "C14": dict(pi=NONE, title="hex-string input"),
     "C15": dict(pi=NONE, title="observers are pure"),
-    "C16": dict(pi=r"^T\d\.(cells|term|len|av)$", title="texts well-formed"),
-    "C17": dict(pi=r"^G$", title="settings"),
-    "C18": dict(pi=r"^$", title="PTY and country lookups"),
+    "C16": dict(pi=NONE, title="texts well-formed"),
+    "C17": dict(pi=NONE, title="settings"),
+    "C18": dict(pi=NONE, title="PTY and country lookups"),
     "C19": dict(pi=NONE, title="instances isolated"),
     "C20": dict(pi=NONE, title="build configurations"),
 }
@@ -380,7 +384,7 @@ def evaluate_stream(ctx, res):
         return
     if desync is not None:
         ctx.cov["desync_skipped"] += 1
-    if rep["err"]:
+    if rep["err"] and not (aborted and pid != "C05"):
         path = runner.write_replay(pid, "%s-s%d-err" % (name, ctx.seed), header + ["kind=correspondence machinery error: " + rep["err"][0][:500]], res.ops[:50])
         ctx.add_violation(path, rep["err"][0][:200], nofail=True)
 
